@@ -806,6 +806,8 @@ class StmtMixin(object):
         if spec is not None and spec.modifies is not None:
             self.havoc(h, spec.modifies, pre.env, pre)
         else:
+            if any(isinstance(x, (ast.Yield, ast.YieldFrom)) for x in ast.walk(node)):
+                raise Undecided("a loop that yields needs an explicit `modifies` (with `yields`) in its Loop contract")
             fields, ghosts, containers = self.loop_effects(node, pre, n, elem_at, cond_node, names)
             for f in sorted(fields):
                 self.heap_array(h, f)
@@ -1126,6 +1128,10 @@ class StmtMixin(object):
                 allowed_fields.setdefault(f, [])
             elif m == "alloc":
                 pass
+            elif m == "yields":
+                ys = env.get("$yields") or start.env.get("$yields")
+                if ys is not None:
+                    allowed_lists.append(u.r(ys.z))
             else:
                 path, f = m.rsplit(".", 1)
                 v, _ = self.spec_value(path, old, env)
@@ -1253,6 +1259,19 @@ class StmtMixin(object):
 
     def spec_exists(self, node, st, acc):
         return self._quant(node, st, acc, False)
+
+    def spec_yielded(self, node, st, acc):
+        """yielded(): the list of the values the generator under verification has yielded so far."""
+        ys = st.env.get("$yields") or (self.entry_env or {}).get("$yields")
+        if ys is None:
+            for s_ in reversed(self.loop_entry_stack):
+                if s_.env.get("$yields") is not None:
+                    ys = s_.env["$yields"]
+                    break
+        if ys is None:
+            raise Undecided("yielded() outside a generator function")
+        elem = ast.literal_eval(node.args[0]) if node.args else None
+        return st, SV(ys.z, "ref", cls="list", elem=elem)
 
     def spec_is_fresh(self, node, st, acc):
         st, v = self.eval(node.args[0], st, acc)
